@@ -22,11 +22,12 @@ import (
 func c07Buffered(c *Ctx) {
 	p, r := c.P, c.R
 	n := 0
-	for _, m := range methodsOf(p, "streamingaead/subtle/noncebased", "Writer") {
-		if m.Name() != "Write" && m.Name() != "Close" {
+	writerMethods := methodsOf(p, "streamingaead/subtle/noncebased", "Writer")
+	for _, m := range writerMethods {
+		if len(m.Params) == 0 {
 			continue
 		}
-		recv := m.Params[0]
+		_ = m.Params[0]
 		allInstrs(m, func(ins ssa.Instruction) {
 			call, ok := ins.(*ssa.Call)
 			if !ok || !call.Call.IsInvoke() {
@@ -44,8 +45,8 @@ func c07Buffered(c *Ctx) {
 			n++
 			key := fmt.Sprintf("C07.buffered/%s/%s#%d", core.FuncID(m), call.Call.Method.Name(), n)
 			bad := ""
-			var visit func(v ssa.Value, from *ssa.BasicBlock, seen map[ssa.Value]bool)
-			visit = func(v ssa.Value, from *ssa.BasicBlock, seen map[ssa.Value]bool) {
+			var visit func(v ssa.Value, from *ssa.BasicBlock, seen map[ssa.Value]bool, ctx *ssa.Function, at *ssa.BasicBlock)
+			visit = func(v ssa.Value, from *ssa.BasicBlock, seen map[ssa.Value]bool, ctx *ssa.Function, at *ssa.BasicBlock) {
 				if seen[v] {
 					return
 				}
@@ -53,17 +54,37 @@ func c07Buffered(c *Ctx) {
 				switch x := v.(type) {
 				case *ssa.Phi:
 					for i, e := range x.Edges {
-						visit(e, x.Block().Preds[i], seen)
+						visit(e, x.Block().Preds[i], seen, ctx, at)
 					}
 					return
+				case *ssa.Parameter:
+					// a helper's parameter: the segment is whatever the Writer's methods pass
+					idx := -1
+					for i, q := range ctx.Params {
+						if q == x {
+							idx = i
+						}
+					}
+					nCalls := 0
+					for _, caller := range writerMethods {
+						allInstrs(caller, func(ins ssa.Instruction) {
+							if c2, isC := ins.(*ssa.Call); isC && c2.Call.StaticCallee() == ctx && idx >= 0 && idx < len(c2.Call.Args) {
+								nCalls++
+								visit(c2.Call.Args[idx], nil, map[ssa.Value]bool{}, caller, c2.Block())
+							}
+						})
+					}
+					if nCalls > 0 && ctx.Object() != nil && !ctx.Object().Exported() {
+						return
+					}
 				case *ssa.Slice:
-					if base, fld, isF := guard.FieldOf(x.X); isF && fld == "plaintext" && guard.Strip(base) == ssa.Value(recv) {
+					if base, fld, isF := guard.FieldOf(x.X); isF && fld == "plaintext" && len(ctx.Params) > 0 && guard.Strip(base) == ssa.Value(ctx.Params[0]) {
 						if x.Low != nil {
 							if k, isK := guard.ConstInt(x.Low); !isK || k != 0 {
 								bad = "the segment does not start at offset 0 of the writer's buffer: buffered bytes before it are never emitted"
 							}
 						}
-						if m.Name() == "Close" {
+						if ctx.Name() == "Close" {
 							_, hf, isHF := guard.FieldOf(x.High)
 							if x.High == nil || !isHF || hf != "plaintextPos" {
 								bad = "Close does not emit exactly the buffered bytes plaintext[:plaintextPos]"
@@ -75,7 +96,7 @@ func c07Buffered(c *Ctx) {
 				// not the internal buffer: only where the buffer is known to be empty
 				blk := from
 				if blk == nil {
-					blk = call.Block()
+					blk = at
 				}
 				empty := false
 				for _, fct := range guard.BlockFacts(blk) {
@@ -93,17 +114,17 @@ func c07Buffered(c *Ctx) {
 					bad = fmt.Sprintf("the segment handed to the encrypter (%s) is not the writer's buffer and the buffer is not known to be empty there: bytes buffered by earlier Write calls are lost", valName(v))
 				}
 			}
-			visit(seg, nil, map[ssa.Value]bool{})
+			visit(seg, nil, map[ssa.Value]bool{}, m, call.Block())
 			r.Check(bad == "", "C07.buffered", key, p.Pos(call.Pos()), bad, "segment = w.plaintext[0:…] (or caller memory under plaintextPos == 0)")
 		})
 	}
-	r.Min("C07.buffered", 4)
+	r.Min("C07.buffered", 2)
 }
 
 // ---------------------------------------------------------------- C10.counter
 //
 // FIPS 204 Algorithm 34 (ExpandMask): polynomial r of the mask is sampled from
-// rho'' || IntegerToBytes(mu + r, 2). Both bytes following rho'' in the SHAKE
+// rho” || IntegerToBytes(mu + r, 2). Both bytes following rho” in the SHAKE
 // input of expandMask must be bytes of the same sum (counter parameter + loop
 // index): the low byte and the byte shifted down by 8. The high byte is only
 // non-zero after dozens of rejections, which no test reaches.
